@@ -62,6 +62,36 @@ def _strip(obs):
     return o
 
 
+def _pyfilter(obs, exp):
+    """positions the specification leaves open (unspec) are not compared"""
+    def f(o, e):
+        if isinstance(e, dict) and e.get("unspec"):
+            return e
+        if isinstance(e, dict) and isinstance(o, dict):
+            if "l" in e and "l" in o and len(e["l"]) == len(o["l"]):
+                return {"l": [f(a, b) for a, b in zip(o["l"], e["l"])]}
+            if "a" in e and "a" in o and len(e["a"]) == len(o["a"]):
+                return {"f": o.get("f"), "a": [f(a, b) for a, b in zip(o["a"], e["a"])]}
+        return o
+    if not isinstance(obs, list) or not isinstance(exp, list) or len(obs) != len(exp):
+        return obs
+    return [[f(a, b) for a, b in zip(x, y)] if isinstance(x, list) and isinstance(y, list) and len(x) == len(y) else x for x, y in zip(obs, exp)]
+
+
+def _ground(t):
+    return t["t"] != "v" and (t["t"] != "c" or all(_ground(a) for a in t["a"]))
+
+
+def _gv_bad(gvs, answers):
+    """where an answer is ground, the value get_value returned must be exactly that term, with no
+    variable (bound or not) inside; non-ground positions are covered by the walker comparison"""
+    for g, a in zip(gvs or [], answers or []):
+        for x, y in zip(g or [], a):
+            if _ground(y) and norm(x) != norm(y):
+                return True
+    return False
+
+
 def replay_one(scn, rec, opts):
     """returns a result dict: {"id", "status": ok|violation|truncated, ...}"""
     from . import real
@@ -71,7 +101,7 @@ def replay_one(scn, rec, opts):
     if stale:
         gc.collect()
     try:
-        runner = real.Runner(scn, mode=opts.get("mode", "full"))
+        runner = real.Runner(scn, mode=opts.get("mode", "full"), opts=opts)
     except Exception as e:
         res.update(status="violation", step=0, kind="setup", detail="%s: %s" % (type(e).__name__, e))
         return res
@@ -87,7 +117,8 @@ def replay_one(scn, rec, opts):
             viol = None
             obs = None
             try:
-                BUDGET.arm(budget)
+                if op["op"] not in ("load", "loadfail"):   # compiling with ANTLR is expensive and not a search
+                    BUDGET.arm(budget)
                 try:
                     obs = runner.apply(op)
                 finally:
@@ -112,6 +143,15 @@ def replay_one(scn, rec, opts):
                     viol = ("exception", "run:" + str(obs.get("exc")))
                 elif norm(_strip(obs)) != norm(_strip(exp)):
                     viol = ("answers", "observation differs")
+                elif opts.get("c15") and obs.get("k") == "solve" and _gv_bad(obs.get("gvs"), exp.get("answers")):
+                    viol = ("get_value", "get_value at an answer is not the fully dereferenced term")
+                    obs, exp = obs.get("gvs"), exp.get("answers")
+                elif opts.get("c15") and obs.get("k") == "solve" and norm(_pyfilter(obs.get("pys"), exp.get("pys"))) != norm(exp.get("pys")):
+                    viol = ("to_python", "to_python at an answer differs from the specified image")
+                    obs, exp = obs.get("pys"), exp.get("pys")
+                elif opts.get("c15") and obs.get("stale"):
+                    viol = ("stale", "a value saved at an answer denotes a different term after the query ended")
+                    obs, exp = obs.get("stale"), []
                 else:
                     snap = runner.snapshot()
                     if norm(snap["dbs"]) != norm(st["dbs"]):
